@@ -41,7 +41,9 @@ enum { VT_NONE = 0, VT_SCRIPTNUM_OVERFLOW = 1, VT_SCRIPTNUM_NONMINIMAL = 2, VT_P
        VT_RUNTIME = 5, VT_INVALID_OPCODE = 6, VT_IOS_FAILURE = 7, VT_OTHER = 8 };
 extern int verif_expect_throw;   // mode A: set by the harness from the spec before the call
 extern int verif_thrown;         // mode B: kind of the exception in flight (0 = none)
-#ifdef VERIF_THROW_REAL
+#if defined(VERIF_NATIVE_SELFTEST)
+#define VERIF_THROW(kind_) throw ::std::out_of_range("verif")
+#elif defined(VERIF_THROW_REAL)
 struct verif_exception { int kind; };
 #define VERIF_THROW(kind_) do { verif_thrown = (kind_); verif_exception verif_e_; verif_e_.kind = (kind_); throw verif_e_; } while (0)
 #else
@@ -169,6 +171,7 @@ public:
     verif_stack_iter begin() const { VERIF_LIMIT(base == 0, "begin() of a stack with hidden items"); verif_stack_iter r; r.idx = 0; return r; }
     verif_stack_iter erase(verif_stack_iter p) {
         size_t pos = p.idx;
+        if (base == 0) __CPROVER_assert(pos < n, "std::vector precondition: erase position valid");   // no hidden items: an out-of-range iterator is a defect of the code
         VERIF_LIMIT(pos <= VERIF_STACK_W, "stack access below the modelled window");
         __CPROVER_assert(pos < n, "std::vector precondition: erase position valid");
         for (size_t i = 0; i + 1 < VERIF_STACK_W; ++i) if (i >= pos && i + 1 < n) w[i] = w[i + 1];
@@ -176,6 +179,7 @@ public:
     }
     verif_stack_iter erase(verif_stack_iter b, verif_stack_iter e) {
         size_t pb = b.idx; size_t pe = e.idx;
+        if (base == 0) __CPROVER_assert(pb <= pe && pe <= n, "std::vector precondition: erase range valid");
         VERIF_LIMIT(pb <= VERIF_STACK_W && pe <= VERIF_STACK_W, "stack access below the modelled window");
         __CPROVER_assert(pb <= pe && pe <= n, "std::vector precondition: erase range valid");
         size_t k = pe - pb;
@@ -184,6 +188,7 @@ public:
     }
     verif_stack_iter insert(verif_stack_iter p, const verif_bytes& v) {
         size_t pos = p.idx; verif_bytes tmp = v;
+        if (base == 0) __CPROVER_assert(pos <= n, "std::vector precondition: insert position valid");
         VERIF_LIMIT(pos <= VERIF_STACK_W, "stack access below the modelled window");
         __CPROVER_assert(pos <= n, "std::vector precondition: insert position valid");
         VERIF_LIMIT(n < VERIF_STACK_W, "stack window capacity");
@@ -192,6 +197,13 @@ public:
     }
 };
 
+// libc memcmp / memcpy (bounded model: at most 520 bytes)
+inline int memcmp(const void* a, const void* b, size_t n) {
+    const unsigned char* x = (const unsigned char*)a; const unsigned char* y = (const unsigned char*)b;
+    for (size_t i = 0; i < 520; ++i) { if (i >= n) break; if (x[i] != y[i]) return x[i] < y[i] ? -1 : 1; }
+    VERIF_LIMIT(n <= 520, "memcmp modelled for at most 520 bytes");
+    return 0;
+}
 namespace std {
 template<typename T> void swap(T& a, T& b) { T t = a; a = b; b = t; }
 template<typename T> T&& move(T& a) { return (T&&)a; }
